@@ -211,9 +211,8 @@ def build(c, shared=None):
         shp = create_const_tensor("oshape", [4], DataType.int32, [1, 8, 8, n])
         op.add_input_tensor(shp)
     if shared and shared.get("bias") is not None:
-        b = shared["bias"]
-        b.consumer_list.append(op)
-        op.inputs.append(b)
+        b = shared["bias"].clone("_clone", set_unique=True)  # what the reader does per operator: own tensor, value_id preserved
+        op.add_input_tensor(b)
     else:
         bv = bias_values(c)
         b = create_const_tensor("b", [len(bv)], DT[c["bias_dtype"]], bv, quantization=qp(np.float32(1), 0))
@@ -812,6 +811,8 @@ def addr_level(rng, tier, st):
 BLOCK_TYPE = {"conv": 1, "tconv": 1, "depthwise": 2, "fc": 3}
 # the fields of WeightCompressionConfig (the last two since repo commit 845322f)
 KEY_FIELDS = ["block_type", "block_depth_clipped", "slices", "dilation", "weight_value_id", "ifm_bitdepth", "op_type_transpose_flip"]
+# the fields of ScaleCompressionConfig
+SCALE_KEY_FIELDS = ["scale_value_id", "ifm_scale", "ofm_scale"]
 
 
 def fbits(x):
@@ -834,22 +835,33 @@ def eff_sections(r):
     return out
 
 
-def gen_history(rng, sound=True):
-    """a list of request dicts.  Requests on the same weight index share the weight tensor (value_id).  sound: requests
-    sharing a weight tensor agree on everything outside the key (the accelerator)"""
-    nw = rng.randint(1, 3)
-    pool = []
-    for _ in range(nw):
-        kind = rng.choice(["conv", "conv", "depthwise", "fc", "tconv"])
+def history_base(rng, kind=None, per_channel=None):
+    """a well-formed request without error cases, the root of a history"""
+    while True:
         base = gen_case(rng, kind=kind)
         base.update(bmode="rand", style="sched", away=False)
         base.pop("explicit", None)
         base.pop("bad_at", None)
-        base["nbias"] = base["wshape"][-1]
+        n = base["wshape"][-1]
+        base["nbias"] = n
         if base["ifm_dtype"] == "int16":
             base["bias_dtype"] = "int32"
-        pool.append(base)
+        if per_channel is not None and base["wdtype"] == "int8":
+            base["per_channel"] = per_channel
+        base["bd"] = rng.choice([8, 16, 16, 24, 32])
+        base["offs"] = gen_slices(rng, n, HW[base["accel"]][0], base["bd"], rng.choice(["full", "full", "sched", "even"]))
+        if is_valid_request(base, base["offs"]):
+            return base
+
+
+def gen_history(rng, sound=True):
+    """a list of request dicts.  Requests with equal widx share the weight tensor, requests with equal bidx the bias tensor
+    (per-operator clones with the value_id of the first, as the reader makes them).  sound: requests sharing a weight tensor
+    agree on everything outside the two keys (the accelerator)"""
+    nw = rng.randint(1, 3)
+    pool = [history_base(rng, kind=rng.choice(["conv", "conv", "depthwise", "fc", "tconv"])) for _ in range(nw)]
     h = []
+    nb = 0
     for _ in range(rng.randint(2, 7)):
         wi = rng.randrange(nw)
         base = pool[wi]
@@ -857,16 +869,22 @@ def gen_history(rng, sound=True):
         nc = HW[base["accel"]][0]
         q = dict(base, widx=wi)
         prev = [p for p in h if p["widx"] == wi]
-        if prev and rng.random() < 0.25:
-            q = dict(rng.choice(prev), repeat=True)  # the very same request again: a full hit
-            h.append(q)
+        if prev and rng.random() < 0.2:
+            h.append(dict(rng.choice(prev), repeat=True))  # the very same objects again: a full hit
             continue
         q["bd"] = rng.choice([8, 16, 16, 24, 32])
         q["offs"] = gen_slices(rng, n, nc, q["bd"], rng.choice(["full", "full", "sched", "even"]))
         if base["kind"] in ("conv", "depthwise"):
             q["dil"] = rng.choice([[1, 1], [1, 1], [2, 2], [2, 1]])
-        q["bseed"] = rng.choice([base["bseed"], rng.getrandbits(30)])
+        # the bias tensor: an earlier one of this weight tensor (clone, same value_id) or a new one (same or other values)
+        if prev and rng.random() < 0.5:
+            p0 = rng.choice(prev)
+            q["bidx"], q["bseed"] = p0["bidx"], p0["bseed"]
+        else:
+            q["bidx"], nb = nb, nb + 1
+            q["bseed"] = rng.choice([base["bseed"], rng.getrandbits(30)])
         q["ofm_scale"] = rng.choice([base["ofm_scale"], base["ofm_scale"], 0.0625])
+        q["ifm_scale"] = rng.choice([base["ifm_scale"], base["ifm_scale"], 0.03125])
         # in the key: operators of different IFM width / a convolution and a transpose convolution sharing one weight tensor
         if base["wdtype"] == "int8" and rng.random() < 0.35:
             q["ifm_dtype"] = rng.choice(["int8", "int16"])
@@ -883,30 +901,123 @@ def gen_history(rng, sound=True):
     return h
 
 
+# every component of the two keys (and the request as a whole), varied one at a time against a root request
+VARIATIONS = ["same_objects", "same_clones", "block_type", "block_depth_clipped", "block_depth_unclipped", "slices", "dilation",
+              "weight_value_id", "ifm_bitdepth", "op_type_transpose_flip", "scale_value_id_same_values", "scale_value_id_new_values",
+              "ifm_scale", "ofm_scale", "ifm_and_ofm_scale", "scale_value_id_and_ofm_scale"]
+
+
+def vary(rng, a, what, ids):
+    """the root request a with exactly the named component changed (None when it cannot be changed on this root)"""
+    n = a["wshape"][-1]
+    nc = HW[a["accel"]][0]
+    q = dict(a, varied=what)
+    if what == "same_objects":
+        return dict(a, repeat=True, varied=what)
+    if what == "same_clones":
+        return q
+    if what == "block_type":
+        if a["kind"] not in ("conv", "depthwise") or a["wshape"][-2] != 1:
+            return None
+        q["kind"] = "depthwise" if a["kind"] == "conv" else "conv"
+    elif what == "block_depth_clipped":
+        cand = [b for b in (8, 16, 24, 32) if min(b, n) != min(a["bd"], n)]
+        if not cand:
+            return None
+        q["bd"] = rng.choice(cand)
+    elif what == "block_depth_unclipped":
+        cand = [b for b in (8, 16, 24, 32, 48) if b != a["bd"] and min(b, n) == min(a["bd"], n)]
+        if not cand:
+            return None
+        q["bd"] = rng.choice(cand)
+    elif what == "slices":
+        for _ in range(10):
+            offs = gen_slices(rng, n, nc, a["bd"], rng.choice(["full", "sched", "even"]))
+            if offs != a["offs"] and is_valid_request(a, offs):
+                q["offs"] = offs
+                break
+        else:
+            return None
+    elif what == "dilation":
+        if a["kind"] not in ("conv", "depthwise"):
+            return None
+        q["dil"] = rng.choice([d for d in ([1, 1], [2, 2], [2, 1], [1, 2]) if d != a["dil"]])
+    elif what == "weight_value_id":
+        q["widx"] = ids["w"] = ids["w"] + 1
+    elif what == "ifm_bitdepth":
+        if a["wdtype"] != "int8":
+            return None
+        q["ifm_dtype"] = "int16" if a["ifm_dtype"] == "int8" else "int8"
+    elif what == "op_type_transpose_flip":
+        if a["kind"] not in ("conv", "tconv") or a["dil"] != [1, 1]:
+            return None
+        q["kind"] = "tconv" if a["kind"] == "conv" else "conv"
+    elif what == "scale_value_id_same_values":
+        q["bidx"] = ids["b"] = ids["b"] + 1
+    elif what == "scale_value_id_new_values":
+        q["bidx"] = ids["b"] = ids["b"] + 1
+        q["bseed"] = rng.getrandbits(30)
+    elif what == "ifm_scale":
+        q["ifm_scale"] = a["ifm_scale"] * rng.choice([0.5, 2.0, 1.25])
+    elif what == "ofm_scale":
+        q["ofm_scale"] = a["ofm_scale"] * rng.choice([0.5, 2.0, 1.25])
+    elif what == "ifm_and_ofm_scale":
+        q["ifm_scale"], q["ofm_scale"] = a["ifm_scale"] * 2.0, a["ofm_scale"] * 2.0  # same ratio, other key
+    elif what == "scale_value_id_and_ofm_scale":
+        q["bidx"] = ids["b"] = ids["b"] + 1
+        q["ofm_scale"] = a["ofm_scale"] * 0.5
+    return q
+
+
+def systematic_history(rng, per_channel):
+    """root request, then every variation of it (shuffled), each sharing the root's weight and bias tensors unless that is
+    the varied component; then a few variations of variations"""
+    a = dict(history_base(rng, kind=rng.choice(["conv", "conv", "depthwise", "fc", "tconv"]), per_channel=per_channel), widx=0, bidx=0)
+    if rng.random() < 0.3 and a["kind"] == "conv":
+        a["wshape"] = a["wshape"][:2] + [1] + a["wshape"][3:]  # a one-channel input: the weights fit a depthwise operator too
+    ids = dict(w=0, b=0)
+    order = list(VARIATIONS)
+    rng.shuffle(order)
+    h = [a]
+    for what in order:
+        q = vary(rng, a, what, ids)
+        if q is not None:
+            h.append(q)
+    for _ in range(3):
+        p = rng.choice([x for x in h[1:] if not x.get("repeat")] or [a])
+        q = vary(rng, p, rng.choice(VARIATIONS[1:]), ids)
+        if q is not None:
+            h.append(q)
+    return h
+
+
 def request_fields(q):
     n = q["wshape"][-1]
     return dict(block_type=BLOCK_TYPE[q["kind"]], block_depth_clipped=min(q["bd"], n), slices=list(q["offs"]), dilation=list(q["dil"]),
                 weight_value_id=q["widx"], ifm_bitdepth=16 if q["ifm_dtype"] == "int16" else 8,
-                op_type_transpose_flip=q["kind"] == "tconv", accelerator_ncores=HW[q["accel"]][0],
+                op_type_transpose_flip=q["kind"] == "tconv",
+                scale_value_id=q["bidx"], ifm_scale=fbits(q["ifm_scale"]), ofm_scale=fbits(q["ofm_scale"]),
+                bias_values=q["bseed"], accelerator_ncores=HW[q["accel"]][0],
                 accelerator_ublock=HW[q["accel"]][1:], block_depth=q["bd"])
 
 
 def run_history(h):
-    """real calls in one process from an empty cache.  Returns per request (status, kind, origin, response, fresh response)"""
+    """real calls in one process from an empty cache.  Returns per request (status, kind, origin, response, fresh response, objects)"""
     clear_cache()
-    weights, made, out = {}, [], []
+    weights, biases, made, out = {}, {}, [], []
     owner = {}
     for i, q in enumerate(h):
         if q.get("repeat"):
-            j = next(k for k, p in enumerate(h[:i]) if all(p.get(x) == q.get(x) for x in q if x != "repeat"))
+            j = next(k for k, p in enumerate(h[:i]) if all(p.get(x) == q.get(x) for x in q if x not in ("repeat", "varied")) and not p.get("repeat"))
             o = made[j]
         else:
-            o = build(q, shared=dict(weight=weights.get(q["widx"])))
+            o = build(q, shared=dict(weight=weights.get(q["widx"]), bias=biases.get(q["bidx"])))
             weights.setdefault(q["widx"], o["w"])
+            biases.setdefault(q["bidx"], o["b"])
         made.append(o)
         status, r = call_real(o, q["offs"])
         if status != "ok":
-            out.append((status, 0, None, r, None))
+            out.append((status, 0, None, r, None, o))
             continue
         if id(r[0]) in owner:
             kind, origin = (2 if r[1] is None else 3), owner[id(r[0])]
@@ -914,17 +1025,14 @@ def run_history(h):
             owner[id(r[0])] = i
             kind, origin = 1, i
         fs, fr = fresh_real(o, q["offs"])
-        out.append((status, kind, origin, r, fr if fs == "ok" else None))
+        out.append((status, kind, origin, r, fr if fs == "ok" else None, o))
     clear_cache()
     return out
 
 
 def bias_identity(h, i):
-    """every request builds its own bias tensor (own value_id) except an exact repeat, which reuses the objects"""
-    q = h[i]
-    if q.get("repeat"):
-        return next(k for k, p in enumerate(h[:i]) if all(p.get(x) == q.get(x) for x in q if x != "repeat"))
-    return i
+    """the bias tensor's value_id: requests with equal bidx use clones of one tensor"""
+    return h[i]["bidx"]
 
 
 def history_model_args(h, outs):
@@ -941,17 +1049,24 @@ def history_model_args(h, outs):
     return a
 
 
+def cache_defect(field):
+    return "scale_cache_key_omits" if field in SCALE_KEY_FIELDS else "weight_cache_key_omits"
+
+
 def history_level(rng, tier, st):
-    n_hist = 40 if tier == "quick" else 800
-    hists = [gen_history(rng, sound=True) for _ in range(n_hist)] + [gen_history(rng, sound=False) for _ in range(n_hist // 2)]
+    n_hist = 30 if tier == "quick" else 600
+    n_sys = 24 if tier == "quick" else 400
+    hists = ([("systematic", systematic_history(rng, per_channel=bool(i % 2))) for i in range(n_sys)]
+             + [("random", gen_history(rng, sound=True)) for _ in range(n_hist)]
+             + [("unsound", gen_history(rng, sound=False)) for _ in range(n_hist // 2)])
     margs, meta = [], []
-    for hi, h in enumerate(hists):
-        sound = hi < n_hist
+    for style, h in hists:
+        sound = style != "unsound"
         outs = run_history(h)
         st["evals"] += len(h)
         flat = []
         ok = True
-        for i, (q, (status, kind, origin, r, fr)) in enumerate(zip(h, outs)):
+        for i, (q, (status, kind, origin, r, fr, o)) in enumerate(zip(h, outs)):
             if status != "ok":
                 flat.append(0)
                 ok = False
@@ -962,23 +1077,43 @@ def history_level(rng, tier, st):
             for (core, d), (sb, wb) in eff.items():
                 flat += [core, d] + ([len(sb)] + list(sb) if sb is not None else [-1]) + [origin]
             st["hist_kinds"][kind] += 1
-            # oracle: what is returned equals a fresh encoding, section by section
+            if q.get("varied"):
+                st["hist_varied"]["%s -> %s" % (q["varied"], {1: "miss", 2: "hit", 3: "hit, scales re-encoded"}[kind])] += 1
+            a, b = request_fields(h[origin]), request_fields(q)
+            diff = [k for k in a if a[k] != b[k]]
+            keyf = [k for k in diff if k in KEY_FIELDS + SCALE_KEY_FIELDS]
+            # oracle 1: what is returned equals a fresh (empty cache) encoding, byte for byte per (core, slice)
             if fr is not None and eff != eff_sections(fr):
-                a, b = request_fields(h[origin]), request_fields(q)
-                diff = [k for k in a if a[k] != b[k]]
-                keyf = [k for k in diff if k in KEY_FIELDS]
-                field = (keyf or diff or ["none"])[0]
-                rec = dict(history=h, request=i, origin=origin, differing_inputs=diff,
-                           stale_weight_bytes=[len(w) for _, w in eff.values()], fresh_weight_bytes=[len(w) for _, w in eff_sections(fr).values()])
-                if keyf or not diff:
-                    # the real key function lost a field (or a hit differs although nothing differs): directly a failing input
-                    if True:
-                        add_bad(st, (dict(defect="weight_cache_key_omits", field=field), rec,
-                                           "cached encoding reused although %s differs: response %d is not what a fresh encoding returns" % (field, i)))
+                fe = eff_sections(fr)
+                s_eq = [x[0] for x in eff.values()] == [x[0] for x in fe.values()] and list(eff) == list(fe)
+                w_eq = [x[1] for x in eff.values()] == [x[1] for x in fe.values()] and list(eff) == list(fe)
+                # which key wrongly said "equal": stale weights -> the weight key; stale scales in a full hit -> either key
+                culprits = [k for k in diff if k in KEY_FIELDS] if not w_eq else []
+                if not s_eq and kind == 2:
+                    culprits += [k for k in diff if k in SCALE_KEY_FIELDS + KEY_FIELDS and k not in culprits]
+                rec = dict(history=h, request=i, origin=origin, differing_inputs=diff, response_kind=kind,
+                           scale_sections_equal=s_eq, weight_sections_equal=w_eq,
+                           stale_weight_bytes=[len(w) for _, w in eff.values()], fresh_weight_bytes=[len(w) for _, w in fe.values()])
+                if culprits or not diff:
+                    # a real key lost a component (or a hit differs although nothing differs): directly a failing input
+                    field = (culprits or ["none"])[0]
+                    add_bad(st, (dict(defect=cache_defect(field), field=field), rec,
+                                 "cached encoding reused although %s differs: response %d (%s) is not what a fresh encoding returns" % (
+                                     field, i, {1: "miss", 2: "hit", 3: "hit, scales re-encoded"}[kind])))
                 else:
-                    st["stale_fn"].setdefault(field, rec)
-            elif kind != 1:
-                st["nontrivial"].add(("hist", kind, q["kind"], HW[q["accel"]][0], len(q["offs"]) - 1))
+                    st["stale_fn"].setdefault([k for k in diff if k not in KEY_FIELDS + SCALE_KEY_FIELDS + ["bias_values"]][0]
+                                              if [k for k in diff if k not in KEY_FIELDS + SCALE_KEY_FIELDS + ["bias_values"]] else diff[0], rec)
+            elif sound:
+                # oracle 2 (independent of the implementation): one record per channel with that channel's bias and scale, in
+                # the tensor the scale registers will point at
+                why = scale_oracle(q, q["offs"], r[1] if r[1] is not None else r[0], o["w"].quantization.scale_f32, o["b"].values)
+                if why:
+                    field = (keyf or diff or ["none"])[0]
+                    add_bad(st, (dict(defect=cache_defect(field), field=field, oracle="records"),
+                                 dict(history=h, request=i, origin=origin, differing_inputs=diff, reason=why),
+                                 "response %d of a request history (%s): %s" % (i, {1: "miss", 2: "hit", 3: "hit, scales re-encoded"}[kind], why)))
+                if kind != 1 or q.get("varied"):
+                    st["nontrivial"].add(("hist", kind, q.get("varied"), q["kind"], HW[q["accel"]][0], q["per_channel"]))
         if ok and sound:
             margs.append(history_model_args(h, outs))
             meta.append((h, flat))
@@ -1001,8 +1136,12 @@ def history_level(rng, tier, st):
 def witness_history(field):
     base = dict(kind="conv", accel="ethos-u55-128", wshape=[3, 3, 16, 16], ifm_dtype="int8", wdtype="int8", per_channel=False, wzp=0, wzp_np=False,
                 bias_dtype="int32", bd=16, nbias=16, wseed=3, bseed=4, sseed=5, wmode="rand", bmode="rand", ifm_scale=0.05, ofm_scale=0.1,
-                dil=[1, 1], away=False, style="full", offs=[0, 16], widx=0)
-    other = dict(base, bseed=6)
+                dil=[1, 1], away=False, style="full", offs=[0, 16], widx=0, bidx=0)
+    if field in ("ofm_scale", "ifm_scale"):  # weights AND bias shared (clones), one scale differs
+        return [base, dict(base, **{field: base[field] * 2})]
+    if field == "scale_value_id":  # weights shared, another bias tensor with other values
+        return [base, dict(base, bidx=1, bseed=6)]
+    other = dict(base, bseed=6, bidx=1)
     if field == "ifm_bitdepth":
         other["ifm_dtype"] = "int16"
     elif field == "op_type_transpose_flip":
@@ -1014,7 +1153,7 @@ def witness_history(field):
     return [base, other]
 
 
-WITNESS_FIELDS = ["ifm_bitdepth", "op_type_transpose_flip", "accelerator_ncores", "accelerator_ublock"]
+WITNESS_FIELDS = ["ifm_bitdepth", "op_type_transpose_flip", "ofm_scale", "ifm_scale", "scale_value_id", "accelerator_ncores", "accelerator_ublock"]
 # how each omitted input is reached through the real compiler (None: no route found -- not reported)
 PIPELINE_ROUTE = {
     "ifm_bitdepth": "one model in which an int8 CONV_2D and an int16 CONV_2D share the weight tensor (the reader clones it, value_id kept)",
@@ -1023,6 +1162,10 @@ PIPELINE_ROUTE = {
                           "weights get a value-derived value_id (create_equivalence_id is an lru_cache) -- reachable only while "
                           "compiler_driver does not clear the process-wide caches between compilations (it does since cea8897); probed every run",
     "accelerator_ublock": None,
+    "ofm_scale": "one model in which three CONV_2D share the weight AND the bias tensor (the reader's per-operator clones keep value_id); "
+                 "equal input scales, another output scale",
+    "ifm_scale": "the same model: equal output scales, another input scale",
+    "scale_value_id": None,
 }
 
 
@@ -1032,7 +1175,7 @@ def witness_function_level(st):
         h = witness_history(f)
         res = run_history(h)
         st["evals"] += len(h)
-        status, kind, origin, r, fr = res[1]
+        status, kind, origin, r, fr = res[1][:5]
         stale = status == "ok" and kind != 1 and fr is not None and eff_sections(r) != eff_sections(fr)
         out[f] = dict(history=h, second_request_kind={1: "miss", 2: "hit", 3: "hit, scales re-encoded", 0: "error"}[kind],
                       stale_differs_from_fresh=bool(stale),
@@ -1043,7 +1186,7 @@ def witness_function_level(st):
 
 def pipeline_scenarios():
     return {"ifm_bitdepth": ["shared8_16", ["ethos-u55-128"]], "op_type_transpose_flip": ["conv_tconv", ["ethos-u55-128"]],
-            "accelerator_ncores": ["mean", ["ethos-u55-128", "ethos-u65-512"]]}
+            "accelerator_ncores": ["mean", ["ethos-u55-128", "ethos-u65-512"]], "ofm_scale": ["shared_wb", ["ethos-u55-128"]]}
 
 
 def pipeline_main(scn, accels, out_dir):
@@ -1076,22 +1219,35 @@ def pipeline_main(scn, accels, out_dir):
             ot = net.tensor([4], "int32", None, None, [1, 16, 16, oc])
             net.op("TRANSPOSE_CONV", [ot, wt, x2, b2], [y2], dict(Padding=PADDING["SAME"], StrideW=2, StrideH=2), version=3)
         net.output(y1, y2)
+    elif scn == "shared_wb":
+        # three convolutions on the SAME constant weight and bias tensors: A (in 0.05, out 0.1), B (in 0.05, out 0.2), C (in 0.025, out 0.1)
+        wt = net.tensor([oc, 3, 3, c], "int8", 0.01, 0, np.random.RandomState(3).randint(-127, 128, [oc, 3, 3, c]))
+        b1 = net.tensor([oc], "int32", 0.0005, 0, np.arange(oc) * 7 - 20)
+        ys = []
+        for si, so in ((0.05, 0.1), (0.05, 0.2), (0.025, 0.1)):
+            x = net.input([1, 8, 8, c], "int8", si, 0)
+            y = net.tensor([1, 8, 8, oc], "int8", so, 0)
+            net.op("CONV_2D", [x, wt, b1], [y], o)
+            ys.append(y)
+        net.output(*ys)
     else:
         x1 = net.input([1, 8, 8, 16], "int8", 0.05, 0)
         net.output(netgen.mean(net, random.Random(1), x1))
     path = os.path.join(out_dir, scn + ".tflite")
     open(path, "wb").write(net.build())
     orig = wc.encode_weight_and_scale_tensor
-    events, stale_for, state = [], {}, dict(compile=0)
+    events, stale_for, state, returned = [], {}, dict(compile=0), {}
 
     def sections(t):
         return [bytes(t.buffer[v.offset + v.weight_offset: v.offset + v.weight_offset + v.weight_bytes]) for v in t.encoded_ranges.values()]
 
     def wrapped(arch, op, wt_, st_, kernel, bc, offs):
-        wcc = wc.create_weight_compression_config(wt_, op.type.npu_block_type, bc.ofm_block.depth, hash(str(offs)), kernel.dilation)
-        hit = CompressedWeightCache.get_tensor_with_same_compression(wcc) is not None
         r = orig(arch, op, wt_, st_, kernel, bc, offs)
+        hit = id(r[0]) in returned  # a tensor handed out before: taken from the cache (whatever the key is made of)
+        returned[id(r[0])] = r[0]
         ev = dict(compile=state["compile"], op=op.name, op_type=str(op.type), ifm_bits=op.inputs[0].dtype.size_in_bits(), ncores=int(arch.ncores),
+                  ifm_scale=float(op.inputs[0].quantization.scale_f32) if op.inputs[0].quantization is not None else None,
+                  ofm_scale=float(op.outputs[0].quantization.scale_f32) if op.outputs[0].quantization is not None else None,
                   accelerator=arch.accelerator_config.value, weights_shape=[int(x) for x in wt_.values.shape], hit=bool(hit))
         if hit:
             saved = dict(CompressedWeightCache.cache)
@@ -1099,7 +1255,10 @@ def pipeline_main(scn, accels, out_dir):
             f = orig(arch, op, wt_, st_, kernel, bc, offs)
             CompressedWeightCache.cache.clear()
             CompressedWeightCache.cache.update(saved)
-            ev.update(stale=sections(r[0]) != sections(f[0]) or list(r[0].encoded_ranges) != list(f[0].encoded_ranges),
+            ev.update(stale=sections(r[0]) != sections(f[0]) or list(r[0].encoded_ranges) != list(f[0].encoded_ranges)
+                      or eff_sections(r) != eff_sections(f),
+                      stale_scales=[x[0] for x in eff_sections(r).values()] != [x[0] for x in eff_sections(f).values()],
+                      returned_scale_tensor=r[1] is not None, fresh_scale_tensor=f[1] is not None,
                       returned_sections=[len(x) for x in sections(r[0])], fresh_sections=[len(x) for x in sections(f[0])],
                       returned_traversal=r[0].hw_traversal.name, fresh_traversal=f[0].hw_traversal.name)
             if ev["stale"]:
@@ -1374,7 +1533,7 @@ def run(tier):
     okx, xlog = vlib.build_extraction(EXE)
     rng = random.Random(vlib.seed())
     st = dict(evals=0, dist=collections.Counter(), model_diff=[], valid=0, nontrivial=set(), bad=[], samples=[], okx=okx, model_cases=0,
-              hist_kinds=collections.Counter(), stale_fn={}, d2={})
+              hist_kinds=collections.Counter(), hist_varied=collections.Counter(), stale_fn={}, d2={})
     timing = {}
     crashed = None
     for name, fn in (("function_level", lambda: function_level(rng, tier, st)), ("bias_level", lambda: bias_level(rng, tier, st)),
@@ -1400,10 +1559,15 @@ def run(tier):
     confirmed = []
     for f in WITNESS_FIELDS:
         w = wit.get(f, {})
-        p = pipe.get(f)
+        p = pipe.get("ofm_scale" if f == "ifm_scale" else f)
         reach = None
         if p and not p.get("error"):
             stale_events = [e for e in p["events"] if e.get("stale")]
+            if f in ("ofm_scale", "ifm_scale"):
+                # the model has operators differing in one scale each: attribute a stale call to the scale in which it differs
+                # from the call that encoded the tensor (the first miss)
+                first = next((e for e in p["events"] if not e["hit"]), None)
+                stale_events = [e for e in stale_events if first and e.get(f) != first.get(f)]
             if stale_events and p["stale_tensor_in_command_stream"]:
                 reach = dict(route=PIPELINE_ROUTE[f], exit_codes=p["exit_codes"], first_stale_call=stale_events[0],
                              stale_tensor_in_command_stream=p["stale_tensor_in_command_stream"][:3])
@@ -1442,6 +1606,8 @@ def run(tier):
         "requests": {"well_formed_with_oracles": st["valid"], "by_kind_ifm_cores_slicing": dict(sorted(st["dist"].items()))},
         "model_vs_impl_cases": st["model_cases"], "model_vs_impl_differences": len(st["model_diff"]),
         "history_responses": {"miss": st["hist_kinds"][1], "hit": st["hist_kinds"][2], "hit_scales_reencoded": st["hist_kinds"][3]},
+        "history_one_component_varied -> response (each judged byte for byte against a fresh encoding and by the record oracle)":
+            dict(sorted(st["hist_varied"].items())),
         "compiled": st["d2"], "samples": st["samples"], "timing_s": timing,
         "odd_slice_witness_on_model [core d len | code channels | spec channels]*": odd,
         "odd_slice_witness_on_implementation": odd_impl,
@@ -1459,11 +1625,11 @@ def run(tier):
         res.violation(k, d, w)
     for f in confirmed:
         w = wit[f]
-        res.violation({"defect": "weight_cache_key_omits", "field": f},
+        res.violation({"defect": cache_defect(f), "field": f},
                       dict(theorem="cache_reuse_old_key_refuted / key_contains / key_omits (coq/props/C08.v)", function_level=w, how_reached=PIPELINE_ROUTE[f],
                            replay_cmd="cd /verif && /venv/bin/python tools/checks/c08.py --pipeline %s %s build/c08_pipeline/%s" % (
                                pipeline_scenarios()[f][0], ",".join(pipeline_scenarios()[f][1]), pipeline_scenarios()[f][0])),
-                      "CompressedWeightCache reuses an encoding although %s differs (key omits it): %s; the stale tensor reaches the command stream "
+                      "CompressedWeightCache reuses an encoding although %s differs (the key that decides the reuse omits it): %s; the stale tensor reaches the command stream "
                       "(returned sections %s bytes, a fresh encoding %s)" % (
                           f, PIPELINE_ROUTE[f], w["compiler_level"]["first_stale_call"].get("returned_sections"),
                           w["compiler_level"]["first_stale_call"].get("fresh_sections")))
